@@ -273,7 +273,7 @@ def gen_case(rng):
                 it["action"] = rng.choice([0, 1, 2, 0.5, 3.5]) if (cont or not has_actions) else None
                 it["_lk"] = None
             it["reward"] = rng.choice([0, 1, 2, -1, 0.5, 3, 0.75])
-            if has_prob: it["probability"] = rng.choice([0.1, 0.2, 0.25, 0.5, 0.75, 1.0, 1/3])
+            if has_prob: it["probability"] = rng.choice([0.1, 0.2, 0.25, 0.5, 0.75, 1.0, 1/3, 2**-11, 1e-4, 2**-20])   # incl. the tiny propensities of a large action set
         for k in extras_keys:
             it[k] = rng.choice([t, f"s{t}", t + 0.5, None, [t, "x"], D(k=t), T(t, 1), True, "", BIG + 2*t, [BIG + 2*t, 0.1 + 0.2], f" s{t} "])
         inter.append(it)
